@@ -1048,6 +1048,27 @@ fn wide_case(w: usize, out: &mut CaseOut) {
 }
 
 fn parser_dup_case(out: &mut CaseOut) {
+    // a chord that lists a key twice, or more keys than the runtime can track, must be rejected
+    // (accepted, it overflowed the 16-slot list of an active chord's keys and panicked at run time)
+    let seventeen = "a b c d e f g h i j k l m n o p q";
+    for (what, keys) in [
+        ("lists a key twice", "a a b".to_string()),
+        ("lists a key twice (last)", "a b b".to_string()),
+        ("lists one key 16 times", format!("{} b", vec!["a"; 16].join(" "))),
+        ("has 17 distinct keys", seventeen.to_string()),
+    ] {
+        let all = "a b c d e f g h i j k l m n o p q";
+        let cfg = format!("(defcfg process-unmapped-keys yes concurrent-tap-hold yes)\n(defsrc {all})\n(deflayer base {all})\n(defchordsv2\n  ({keys}) 1 20 all-released ()\n)\n");
+        out.inc("parser_malformed_key_lists");
+        if Sim::new(&cfg).is_ok() {
+            out.violate(
+                "C09:v2:malformed-key-list-accepted",
+                format!("a chord that {what} was accepted"),
+                json!({"config": cfg, "history": "", "observed": "accepted", "expected": "rejected: a chord's keys are a set of at most 16 keys"}),
+            );
+            return;
+        }
+    }
     // the same key set written in two different orders must be rejected ("The list must be unique per chord")
     let sets: [&[&str]; 4] = [&["a", "b"], &["a", "b", "c"], &["b", "c", "d"], &["a", "b", "c", "d"]];
     for set in sets {
@@ -1388,6 +1409,7 @@ impl Check for C09Check {
             ("v1_decompositions_with_sub_chord", 1_000),
             ("random_chords_fired", 200),
             ("parser_permuted_duplicate_sets", 10),
+            ("parser_malformed_key_lists", 4),
         ]
     }
     fn exhaustive(&self, _ctx: &Ctx) -> bool {
